@@ -385,7 +385,33 @@ func neighbourhood(base Snap, full bool, f func(tamper)) {
 			s[migrate.HashFileName] = strings.Join(l, "")
 			return s
 		}
+		// rehashed: the same edit of the file lines with the first line (the sum of the entries) computed
+		// anew, so that the sum file is consistent in itself.
+		rehashed := func(l []string) Snap {
+			var hf migrate.HashFile
+			for _, x := range l[1:] {
+				x = strings.TrimSuffix(x, "\n")
+				if k := strings.LastIndex(x, " h1:"); k >= 0 {
+					hf = append(hf, struct{ N, H string }{x[:k], x[k+4:]})
+				}
+			}
+			b, _ := hf.MarshalText()
+			s := base.clone()
+			s[migrate.HashFileName] = string(b)
+			return s
+		}
 		for i := range lines {
+			if i > 0 {
+				l := append(append([]string(nil), lines[:i]...), lines[i+1:]...)
+				emit(fmt.Sprintf("sum remove-line %d rehashed", i), rehashed(l))
+				l = append(append(append([]string(nil), lines[:i+1]...), lines[i]), lines[i+1:]...)
+				emit(fmt.Sprintf("sum dup-line %d rehashed", i), rehashed(l))
+				if i+1 < len(lines) {
+					l = append([]string(nil), lines...)
+					l[i], l[i+1] = l[i+1], l[i]
+					emit(fmt.Sprintf("sum swap-lines %d rehashed", i), rehashed(l))
+				}
+			}
 			l := append(append([]string(nil), lines[:i]...), lines[i+1:]...)
 			emit(fmt.Sprintf("sum remove-line %d", i), join(l))
 			l = append(append(append([]string(nil), lines[:i+1]...), lines[i]), lines[i+1:]...)
@@ -570,6 +596,8 @@ func specials() []Snap {
 		mk(map[string]string{"1_a.sql": "A;\n", "2_b.sql": "A;\n", "3_c.sql": "A;\n"}),
 		mk(map[string]string{"1_a.sql": "", "2_b.sql": "B;\n"}),
 		mk(map[string]string{"1_a.sql": "A;\n", "notes.txt": "hello"}),
+		// a file name that begins with a blank.
+		mk(map[string]string{" 0_lead.sql": "L;\n", "1_a.sql": "A;\n"}),
 		// a file name that holds the text separating a name from its hash in a sum line.
 		mk(map[string]string{"1_a.sql": "A;\n", "2_h1:x.sql": "B;\n"}),
 	}
@@ -580,7 +608,7 @@ func Run(r *report.Run) {
 	if r.Tier == "thorough" {
 		depth, tamperDepth, full = 4, 2, true
 	}
-	r.Rule = fmt.Sprintf("(1) BFS to depth %d over the writer alphabet {Planner.WritePlan x 6 formatters x 2 plans x {new version, overwrite version 1}, WriteCheckpoint x 2 plans, MemDir.CopyFiles into an empty MemDir / into one that holds the first file / newest file first} from the empty MemDir (and LocalDir to depth 2); canonical state = sorted (name, bytes) with 14-digit timestamps masked; invariant Validate(dir)==nil in every state. (2) for every reached state of depth<=%d with <=3 migration files plus 9 hand-built states (sum-ignored files first/middle/last, awkward names (a blank, a second '.sql', the text 'h1:'), equal contents, empty file, non-migration file): the complete single-edit neighbourhood - every byte position of every file and of atlas.sum x {substitute (%s), delete, insert 4 values}, file add before/between/after x contents (new, sum-ignored, empty, copy of each file), remove, rename (order preserving / changing / out of *.sql), toggle the ignore directive, swap contents, move a tail across a file boundary, sum line remove/dup/swap, bytes moved between a name and its hash in a sum line, sum removed/emptied - judged by refSum; for directories holding a checkpoint a material edit must also make Executor.ExecuteTo(v) fail with a checksum error for every version v that precedes the checkpoint. (3) BFS over CLI histories on a real directory with the alphabet {migrate new, migrate diff to 2 desired schemas (SQLite dev db), migrate hash, hand edits: append to newest file, remove oldest file, add a file, drop the last sum line, rename newest file}: a writer command must refuse a directory whose sum does not match and leave it untouched, must leave a valid directory otherwise; in every reached state `migrate validate` and `migrate apply` (fresh database) must succeed iff the directory was not edited since atlas last wrote or re-hashed it, and the CLI must agree with migrate.Validate(LocalDir); an edited directory handed over as a state source (`schema inspect --url file://dir`, absolute and relative URL) must be refused too; (4) `migrate import` from hand-written source directories of the 5 third-party formats x version sets (digit boundaries 9/10/11, 1/2/10, zero-padded; flyway also with a repeatable, a baseline and an undo file, and with a file in a sub-directory of a directory that lives below a hidden directory): the written directory must validate and hold the statement of every step exactly once; non-trivial = tampered directory the model calls material; distinct = (state, edit)", depth, tamperDepth, map[bool]string{false: "bit flip, newline, space", true: "all 255 other values"}[full])
+	r.Rule = fmt.Sprintf("(1) BFS to depth %d over the writer alphabet {Planner.WritePlan x 6 formatters x 2 plans x {new version, overwrite version 1}, WriteCheckpoint x 2 plans, MemDir.CopyFiles into an empty MemDir / into one that holds the first file / newest file first} from the empty MemDir (and LocalDir to depth 2); canonical state = sorted (name, bytes) with 14-digit timestamps masked; invariant Validate(dir)==nil in every state. (2) for every reached state of depth<=%d with <=3 migration files plus 10 hand-built states (sum-ignored files first/middle/last, awkward names (a blank inside / in front, a second '.sql', the text 'h1:'), equal contents, empty file, non-migration file): the complete single-edit neighbourhood - every byte position of every file and of atlas.sum x {substitute (%s), delete, insert 4 values}, file add before/between/after x contents (new, sum-ignored, empty, copy of each file), remove, rename (order preserving / changing / out of *.sql), toggle the ignore directive, swap contents, move a tail across a file boundary, sum line remove/dup/swap (also with the first line computed anew, so that the sum file is consistent in itself), bytes moved between a name and its hash in a sum line, sum removed/emptied - judged by refSum; for directories holding a checkpoint a material edit must also make Executor.ExecuteTo(v) fail with a checksum error for every version v that precedes the checkpoint. (3) BFS over CLI histories on a real directory with the alphabet {migrate new, migrate diff to 2 desired schemas (SQLite dev db), migrate hash, hand edits: append to newest file, remove oldest file, add a file, drop the last sum line, rename newest file}: a writer command must refuse a directory whose sum does not match and leave it untouched, must leave a valid directory otherwise; in every reached state `migrate validate` and `migrate apply` (fresh database) must succeed iff the directory was not edited since atlas last wrote or re-hashed it, and the CLI must agree with migrate.Validate(LocalDir); an edited directory handed over as a state source (`schema inspect --url file://dir`, absolute and relative URL) must be refused too; (4) `migrate import` from hand-written source directories of the 5 third-party formats x version sets (digit boundaries 9/10/11, 1/2/10, zero-padded; flyway also with a repeatable, a baseline and an undo file, and with a file in a sub-directory of a directory that lives below a hidden directory): the written directory must validate and hold the statement of every step exactly once; non-trivial = tampered directory the model calls material; distinct = (state, edit)", depth, tamperDepth, map[bool]string{false: "bit flip, newline, space", true: "all 255 other values"}[full])
 	r.Assumptions = []string{
 		"material = the ordered list of *.sql files (name, bytes; bytes replaced by a marker for files whose first line carries atlas:sum ignore) changed, or atlas.sum changed other than in ASCII white space (space, tab, CR, VT, FF) or its final newline; immaterial edits of sum-ignored bodies and whitespace-only sum edits are counted, not judged",
 		"any of ErrChecksumMismatch / ErrChecksumFormat / ErrChecksumNotFound counts as a checksum error",
